@@ -61,8 +61,9 @@ Theorem C04_engine_settles_across_crashes : forall tasks deps validate (rank : Z
   (forall t d, In t tasks -> In d (deps t) -> In d tasks) ->
   forall ls s, run tasks deps validate true true boot ls = Some s -> Quiescent tasks s ->
   ins s <> IRunning /\
-  (ins s = ISuccess <-> forall t, In t tasks -> store s t = SSuccess) /\
-  (ins s = IFailed -> exists t, In t tasks /\ store s t = SFailed).
+  (ins s = ISuccess <-> forall t, In t tasks -> done (store s t) = true) /\
+  (ins s = IFailed -> exists t, In t tasks /\ store s t = SFailed) /\
+  (ins s = IBlocked -> exists t, In t tasks /\ store s t = SBlocked).
 Proof.
   intros tasks deps validate rank Hnd Hrank Hclosed ls s Hr Hq.
   apply (settled tasks deps s); [|exact Hq].
